@@ -147,6 +147,8 @@ func errCode(err error) string {
 	return ""
 }
 
+var c02parser *parsers.ExpressionParser
+
 // event input: entry, texts (list of vocabulary texts; constants/variables are made distinct by position)
 func execC02(seg []Ev) []Ev {
 	out := make([]Ev, 0, len(seg))
@@ -182,7 +184,15 @@ func execC02(seg []Ev) []Ev {
 			lex = append(lex, tokenizers.NewToken(v.typ, text, 1, i+1))
 			toks = append(toks, []string{v.kind, ktext})
 		}
-		p := parsers.NewExpressionParser()
+		// ParseTokens clears the whole parser state (history independence is C05's subject), so one
+		// instance serves all token-level cases; ParseString gets a fresh parser with a fresh lexer
+		p := c02parser
+		if entry != "tokens" || p == nil {
+			p = parsers.NewExpressionParser()
+			if entry == "tokens" {
+				c02parser = p
+			}
+		}
 		var err error
 		oc, det := guarded(func() {
 			if entry == "tokens" {
@@ -254,6 +264,21 @@ func genC02(g *Gen) {
 		}
 	}
 	rec(nil)
+	// deeper over the call / index / grouping vocabulary
+	ln3 := g.Pick(5, 6)
+	var rec3 func(cur []string)
+	rec3 = func(cur []string) {
+		if len(cur) > ln {
+			run(fmt.Sprintf("exhaustive<=%d bracket vocabulary (ParseTokens)", ln3), "tokens", cur)
+		}
+		if len(cur) == ln3 {
+			return
+		}
+		for _, t := range []string{"1", "a", "(", ")", "[", "]", ","} {
+			rec3(append(append([]string{}, cur...), t))
+		}
+	}
+	rec3(nil)
 	// full vocabulary exhaustively <= 2 (quick) / 3 (thorough), both entries
 	ln2 := g.Pick(2, 3)
 	var rec2 func(cur []string)
@@ -274,7 +299,7 @@ func genC02(g *Gen) {
 	r := g.Rand()
 	n := g.Pick(6000, 150000)
 	for i := 0; i < n; i++ {
-		ts := randomSentence(g, 1+r.Intn(4))
+		ts := randomSentence(g, r.Intn(4))
 		for k := r.Intn(4); k > 0 && len(ts) > 0; k-- {
 			j := r.Intn(len(ts))
 			switch r.Intn(5) {
@@ -291,7 +316,7 @@ func genC02(g *Gen) {
 				ts = append(ts[:j], append([]string{ts[j]}, ts[j:]...)...)
 			}
 		}
-		if len(ts) == 0 || len(ts) > 40 {
+		if len(ts) == 0 || len(ts) > 80 {
 			continue
 		}
 		entry := "tokens"
